@@ -1,7 +1,6 @@
 """C03 - an accepted Discover is answered by exactly one correct Hello."""
 from props.base import *
 from props.blk import *
-XORACLE = True   # spec/SpecTx.v predicates, extracted, run on the implementation's trace
 COQ_TARGETS = ['props/Properties_C03.vo']
 RULE = ('histories over 4 stations with Discovers of both services: generation 0, 1, 0x00FF, 0xFF00, 0xFFFF and random, any transaction id, direct and bridged (Ethernet source != real '
         'source), preceded by Discovers of the other service, by foreign Hellos with the same / byte-swapped generation, by Resets, commands and noise; the independent oracle tracks the '
